@@ -135,6 +135,7 @@ async fn start_streaming<
     senders: &Senders,
     stream_events: StreamEvents,
     extra_message: Option<ToClientMessage>,
+    flush_journal: bool,
 ) where
     Tx::Error: Debug,
 {
@@ -158,6 +159,12 @@ async fn start_streaming<
     } else {
         None
     };
+
+    if flush_journal {
+        // The listener is registered before the journal flush is awaited: the events that are
+        // produced while this task waits for the journal thread must not be lost
+        senders.events.flush_journal().await;
+    }
 
     if let Some(msg) = extra_message {
         let _ = tx.send(msg).await;
@@ -208,9 +215,6 @@ pub async fn client_rpc_loop<
                 let response = match message {
                     FromClientMessage::Submit(msg, stream_opts) => {
                         let response = submit::handle_submit(&state_ref, senders, msg);
-                        if !response.is_error() {
-                            senders.events.flush_journal().await;
-                        };
                         if let Some(mut stream_opts) = stream_opts
                             && let ToClientMessage::SubmitResponse(SubmitResponse::Ok {
                                 job, ..
@@ -228,10 +232,14 @@ pub async fn client_rpc_loop<
                                 senders,
                                 stream_opts,
                                 Some(response),
+                                true,
                             )
                             .await;
                             break;
                         }
+                        if !response.is_error() {
+                            senders.events.flush_journal().await;
+                        };
                         response
                     }
                     FromClientMessage::JobInfo(msg, stream_opts) => {
@@ -253,6 +261,7 @@ pub async fn client_rpc_loop<
                                 senders,
                                 stream_opts,
                                 Some(response),
+                                false,
                             )
                             .await;
                             break;
@@ -314,7 +323,7 @@ pub async fn client_rpc_loop<
                         response
                     }
                     FromClientMessage::StreamEvents(msg) => {
-                        start_streaming(tx, rx, state_ref, senders, msg, None).await;
+                        start_streaming(tx, rx, state_ref, senders, msg, None, false).await;
                         break;
                     }
                     FromClientMessage::ServerInfo => {
